@@ -436,6 +436,11 @@ func zzDump(x interface{}) string {
 				return
 			}
 			sb = append(sb, ("rv(" + rv.Type().String() + ":")...)
+			// (a container behind an interface-typed literal is a run-time value like
+			// any other: its identity belongs to the tree, its content does not)
+			for rv.Kind() == reflect.Interface && !rv.IsNil() {
+				rv = rv.Elem()
+			}
 			switch rv.Kind() {
 			case reflect.Func, reflect.Chan, reflect.Ptr, reflect.Map, reflect.UnsafePointer:
 				sb = append(sb, fmt.Sprintf("%x", rv.Pointer())...)
